@@ -141,6 +141,24 @@ func overlayFiles(extra map[string]string) (map[string][]byte, []string) {
 	return ov, ps
 }
 
+// droppedHarnessFiles: overlay paths of harness files that no longer compile against the tree (see loadProgram).
+var droppedHarnessFiles = map[string]bool{}
+var droppedHarnessSrc = map[string]string{}
+
+// droppedServes reports whether a dropped harness file declares a harness for property prop.
+func droppedServes(f, prop string) bool {
+	for _, l := range strings.Split(droppedHarnessSrc[f], "\n") {
+		if strings.HasPrefix(l, "//verif:props=") {
+			for _, p := range strings.Split(strings.Fields(strings.TrimPrefix(l, "//verif:props="))[0], ",") {
+				if p == prop {
+					return true
+				}
+			}
+		}
+	}
+	return false
+}
+
 func packageClause(src []byte) string {
 	for _, l := range strings.Split(string(src), "\n") {
 		l = strings.TrimSpace(l)
@@ -156,12 +174,48 @@ func loadProgram(extra map[string]string) (*ssa.Program, []*ssa.Package, time.Du
 	ov, pats := overlayFiles(extra)
 	cfg := &packages.Config{Mode: packages.LoadAllSyntax, Dir: repoDir, Overlay: ov,
 		Env: append(os.Environ(), "GOFLAGS=-mod=mod", "GOPROXY=off")}
-	pkgs, err := packages.Load(cfg, pats...)
-	if err != nil {
-		fatal(2, "HARNESS-STALE: load: %v", err)
-	}
-	if packages.PrintErrors(pkgs) > 0 {
-		fatal(2, "HARNESS-STALE: packages do not type-check against the current tree")
+	var pkgs []*packages.Package
+	for attempt := 0; ; attempt++ {
+		var err error
+		pkgs, err = packages.Load(cfg, pats...)
+		if err != nil {
+			fatal(2, "HARNESS-STALE: load: %v", err)
+		}
+		// A change to the tree may remove or rename something a harness file refers to. Such files are dropped (and
+		// reported as INCONCLUSIVE) so that the remaining harnesses still run; errors in the tree itself are fatal.
+		bad := map[string]bool{}
+		treeBroken := false
+		packages.Visit(pkgs, nil, func(p *packages.Package) {
+			for _, e := range p.Errors {
+				f := e.Pos
+				if i := strings.Index(f, ":"); i > 0 {
+					f = f[:i]
+				}
+				base := filepath.Base(f)
+				if strings.HasPrefix(base, "zz_verif_") && base != "zz_verif_api.go" {
+					bad[f] = true
+				} else {
+					treeBroken = true
+				}
+			}
+		})
+		if len(bad) == 0 && !treeBroken {
+			break
+		}
+		if treeBroken || attempt >= 8 {
+			packages.PrintErrors(pkgs)
+			fatal(2, "HARNESS-STALE: packages do not type-check against the current tree")
+		}
+		for f := range bad {
+			if _, ok := ov[f]; !ok {
+				packages.PrintErrors(pkgs)
+				fatal(2, "HARNESS-STALE: packages do not type-check against the current tree")
+			}
+			droppedHarnessSrc[f] = string(ov[f])
+			delete(ov, f)
+			droppedHarnessFiles[f] = true
+			fmt.Fprintf(os.Stderr, "HARNESS-STALE: %s does not type-check against the current tree; its harnesses are skipped\n", f)
+		}
 	}
 	prog, spkgs := ssautil.AllPackages(pkgs, ssa.InstantiateGenerics)
 	prog.Build()
